@@ -711,7 +711,7 @@ impl Scenario for Flow {
                         ex.st.inc("probe.gse_len_4095");
                     }
                     // C11 first-fragment context
-                    if let Some(v) = mon::check_c11_first(&res, &parsed, fid, buf_len, !exts.is_empty()) {
+                    if let Some(v) = mon::check_c11_first(&res, &parsed, fid, buf_len, !exts.is_empty(), &pdu, &buf) {
                         if ex.report(v) {
                             stop!();
                         }
@@ -873,6 +873,12 @@ impl Scenario for Flow {
                         flights[fi].calls_ge13 += 1;
                         if let TxRes::Err(EncapError::ErrorSizeBuffer) = &res {
                             if ex.report(Violation::new("C02", "C02.rejects_13_byte_buffer", "encap_frag", format!("buffer {} rejected", buf_len))) {
+                                stop!();
+                            }
+                        } else if let TxRes::Err(e) = &res {
+                            // the context came from the library itself and the PDU fits the total length: nothing
+                            // but a too-small buffer can stand between this transfer and its completion
+                            if ex.report(Violation::new("C02", "C02.continuation_refused", format!("encap_frag:{:?}", e), format!("encap_frag refused a {}-byte buffer with {:?} for a transfer in progress ({} of {} bytes sent)", buf_len, e, ctx.len_pdu_frag(), flights[fi].pdu.len()))) {
                                 stop!();
                             }
                         }
@@ -1549,7 +1555,15 @@ pub mod gen {
     fn gen_c04(rng: &mut Rng, long_runs: bool) -> Program {
         let n = if long_runs && rng.chance(1, 20) { rng.usize_in(300, 700) } else { rng.usize_in(3, 60) };
         let mut ops = vec![];
-        let alphabet = [L6A, L6B, L3A, L3B, Lab::Bcast, Lab::ReUse];
+        // labels: the standard four, or (one run in three) a confusable set - same first three bytes, labels that
+        // differ in their last byte only, the all-zero 3-byte label, a 6-byte label that starts with zeros
+        let alphabet = if rng.chance(1, 3) {
+            [Lab::L6([0x0A, 0x0B, 0x0C, 1, 2, 3]), Lab::L6([0x0A, 0x0B, 0x0C, 1, 2, 4]), *rng.pick(&[L3A, Lab::L3([0, 0, 0])]), *rng.pick(&[Lab::L3([0x0A, 0x0B, 0x0D]), Lab::L3([0, 0, 1])]), Lab::Bcast, Lab::ReUse]
+        } else if rng.chance(1, 6) {
+            [Lab::L6([0, 0, 0, 0, 0, 1]), Lab::L6([0, 0, 0, 0, 1, 0]), Lab::L3([0, 0, 0]), L3B, Lab::Bcast, Lab::ReUse]
+        } else {
+            [L6A, L6B, L3A, L3B, Lab::Bcast, Lab::ReUse]
+        };
         // per-run bias towards one label so that re-use actually happens
         let fav = *rng.pick(&alphabet[..4]);
         let mut fid: u8 = rng.below(256) as u8;
@@ -1579,7 +1593,7 @@ pub mod gen {
                     } else {
                         ops.push(submit(2, rng.next(), pt, &Lab::Bcast, fid.wrapping_add(101), 4097, &[]));
                     }
-                    let lab1 = *rng.pick(&[Lab::ReUse, Lab::ReUse, Lab::Bcast, L3B, L6B]);
+                    let lab1 = *rng.pick(&[Lab::ReUse, Lab::ReUse, Lab::Bcast, alphabet[3], alphabet[1]]);
                     // same first-fragment payload: header sizes differ with the label, adjust the buffer
                     // (the first label may have been substituted, i.e. written with length 0: try both alignments)
                     let b1 = if rng.chance(1, 2) { b0 + lab1.len() } else { (b0 + lab1.len()).saturating_sub(lab0.len()).max(7) };
